@@ -34,9 +34,10 @@ const (
 // File is one Go source file of a generated package.
 type File struct {
 	Name    string   `json:"name"`
-	Imports []string `json:"imports"` // import paths in source order
-	Style   int      `json:"style"`   // 0: one import decl per path; 1: one block; 2: two blocks
-	Body    string   `json:"body"`    // declarations following the imports
+	Imports []string `json:"imports"`       // import paths in source order
+	Style   int      `json:"style"`         // 0: one import decl per path; 1: one block; 2: two blocks
+	Body    string   `json:"body"`          // declarations following the imports
+	Doc     []string `json:"doc,omitempty"` // lines of the comment in front of the package clause
 }
 
 // Pkg is one generated package; Dir is relative to the module root ("" = the
@@ -70,6 +71,9 @@ func LeafName(importPath string) string {
 // Source renders one file.
 func Source(p Pkg, f File) string {
 	var b strings.Builder
+	for _, l := range f.Doc {
+		b.WriteString(strings.TrimRight("// "+l, " ") + "\n")
+	}
 	fmt.Fprintf(&b, "package %s\n\n", p.Name)
 	block := func(ps []string) {
 		if len(ps) == 0 {
@@ -296,7 +300,15 @@ func ParseHeader(text string) (Header, error) {
 		}
 		break
 	}
-	for _, l := range lines {
+	// the footer and the section count are read from the text outside comments: a package
+	// comment may well contain a line "End code." (seeded change C08-9: a comment that ends early
+	// turns the rest of the documentation into vernacular)
+	body, err := StripComments(text)
+	if err != nil {
+		return h, err
+	}
+	for _, l := range strings.Split(body, "\n") {
+		l = strings.TrimSpace(wsRe.ReplaceAllString(l, " "))
 		switch l {
 		case "Section code.":
 			h.SectionLines++
@@ -308,4 +320,43 @@ func ParseHeader(text string) (Header, error) {
 		}
 	}
 	return h, nil
+}
+
+// StripComments removes Coq comments (which nest) from text; string literals outside comments are
+// copied verbatim. An unbalanced comment delimiter is an error.
+func StripComments(text string) (string, error) {
+	var b strings.Builder
+	depth := 0
+	inStr := false
+	for i := 0; i < len(text); i++ {
+		c := text[i]
+		switch {
+		case inStr:
+			b.WriteByte(c)
+			if c == '"' {
+				inStr = false
+			}
+		case c == '(' && i+1 < len(text) && text[i+1] == '*':
+			depth++
+			i++
+		case depth > 0 && c == '*' && i+1 < len(text) && text[i+1] == ')':
+			depth--
+			i++
+		case depth > 0:
+			if c == '\n' {
+				b.WriteByte(c)
+			}
+		case c == '*' && i+1 < len(text) && text[i+1] == ')':
+			return "", fmt.Errorf("comment terminator outside a comment at byte %d", i)
+		default:
+			if c == '"' {
+				inStr = true
+			}
+			b.WriteByte(c)
+		}
+	}
+	if depth > 0 {
+		return "", fmt.Errorf("unterminated comment")
+	}
+	return b.String(), nil
 }
